@@ -51,6 +51,7 @@ pub fn new_box(area: &str) -> Option<Box<dyn VerifBox>> {
             crate::protocol::verif_c08::ServiceBox::new(),
         )),
         "c09" => Some(Box::new(crate::protocol::verif_c09::KeepAliveBox::new())),
+        "c05" => Some(Box::new(crate::transport::manager::verif_c05::ManagerBox::new())),
         _ => None,
     }
 }
@@ -61,6 +62,7 @@ pub fn areas() -> Vec<&'static str> {
         "c02",
         "c03",
         "c04",
+        "c05",
         "c07",
         "c08",
         "c09",
